@@ -151,7 +151,7 @@ def seat_plan(keys):
 PLANS["C08"] = seat_plan(["o", "occ", "act", "res", "pos"])
 PLANS["C17"] = seat_plan(["o", "occ", "act", "res", "pos"])
 PLANS["C18"] = seat_plan(["o", "ret", "occ", "res"])
-PLANS["C18"]["quick"].append(("race", {"n": 20}))
+PLANS["C18"]["quick"].append(("race", {"n": 400}))
 PLANS["C18"]["thorough"].append(("race", {"n": 2000}))
 
 # ---------------- regulator ----------------
